@@ -259,7 +259,16 @@ pub fn run(ctx: &Ctx) -> i32 {
     series.push(("extend_stream:wide-alphabet-set", 64, 12, true, None, 0x0101_0101, Shape::Fixed, None));
     for (name, radix, len, set, geom, stride, shape, trickle) in series {
         let entry = if name.starts_with("extend_stream:") { Entry::ExtendStream } else if name.starts_with("extend_iter:") { Entry::ExtendIter } else { Entry::Single };
-        let (rows, cols) = geom.unwrap_or((10_000, 2));
+        // the constant is computed from the geometry of the cache the builder REALLY created (recorded by the hook in
+        // Registry::new), so a tree that legitimately ships another default geometry is judged against its own constant
+        let probe_geom = {
+            let _ = match geom {
+                None => Builder::new_type(io::sink(), 0).map(|_| ()),
+                Some((r, c)) => Builder::verif_new_with_cache(io::sink(), 0, r, c).map(|_| ()),
+            };
+            fst::raw::verif::last_geometry()
+        };
+        let (rows, cols) = probe_geom.or(geom).unwrap_or((10_000, 2));
         let k = bound(rows, cols, radix as usize + 1, len + 3);
         // the slope test is only sound once every cache cell has been used: small geometries saturate within 10^4 keys,
         // the default 20000-cell table keeps filling up to ~10^7 keys (there only the a-priori bound is judged)
